@@ -406,10 +406,11 @@ def loop_nexts(body, pred):
     return out
 
 
-def skipped_iteration(body, nx, site_blocks):
-    """K9: witness path from the Some edge of the loop header `nx` back to the header that avoids every block in site_blocks (None if none)"""
+def skipped_iteration(body, nx, site_blocks, allowed_edges=()):
+    """K9: witness path from the Some edge of the loop header `nx` back to the header that avoids every block in site_blocks
+    and every explicitly allowed skip edge (None if none)"""
     some = variant_edge(body, nx, "Some")
-    seen = body.reach(0, src_edges=some, cut_blocks=list(site_blocks))
+    seen = body.reach(0, src_edges=some, cut_blocks=list(site_blocks), cut_edges=list(allowed_edges))
     if nx.bb in seen:
         return witness_path(body, seen, nx.bb)
     return None
